@@ -162,19 +162,10 @@ Section O13.
         else true).
 End O13.
 
-(* known findings, recognised on the input (see CorrC15 for the scheme):
-     1  names of filecmp.DEFAULT_IGNORES ('tags', '.git', ...) are never synchronised into an existing job
-     2  the implicit exclude patterns are un-anchored regexes: 'signac_statepoint.json.bak' etc. are skipped *)
-Definition known_tag_C13 (c : case_sync) : N :=
-  if negb (holds_C13 (cs_frepr c) (cs_case c))
-     && holds_C13 (cs_frepr c) (model_case (cs_frepr c) cfg_fixed (c_in (cs_case c)))
-  then (if active (cs_frepr c) 8 (c_in (cs_case c)) then 1%N
-        else if active (cs_frepr c) 9 (c_in (cs_case c)) then 2%N else 0%N)
-  else 0%N.
+(* no open known finding for C13 (the DEFAULT_IGNORES and un-anchored-pattern defects are repaired) *)
 
 Definition case_C13 := case_sync.
 Definition mismatch_C13 (c : case_C13) : bool := mismatch_case c.
 Definition violation_C13 (c : case_C13) : bool := negb (holds_C13 (cs_frepr c) (cs_case c)).
 Definition mismatches_C13 (cs : list case_C13) : list N := indices_where mismatch_C13 cs.
 Definition violations_C13 (cs : list case_C13) : list N := indices_where violation_C13 cs.
-Definition known_C13 (cs : list case_C13) : list N := tagged known_tag_C13 cs.
